@@ -388,6 +388,8 @@ package lang
 //@ ghost $nmatch int
 //@ ghost $ranBlock bool
 //@ ghost $lastCell *Cell
+// The receiver bound on the function cell when the callee expression was looked up (C15).
+//@ ghost $recv *Value
 
 // AST well-formedness: the children the evaluator dereferences are present.  Proved where the
 // parser builds the nodes, assumed where the evaluator loads them (type invariants).
@@ -471,6 +473,8 @@ package lang
 //@   after Evaluator.evalCaseMatch: $nmatch = (ret0 && ret2 == nil ? $nmatch + 1 : $nmatch)
 //@   after Evaluator.evalStatement: $ranBlock = true
 //@   after Evaluator.evalExpr: $lastCell = ret0
+//@   after Evaluator.evalExpr: $recv = (ret1 == nil ? ret0.Value.Binding : $recv)
+//@   assert[C15] receiver-is-the-one-bound-at-lookup: arg2.Value.Binding == $recv @ Evaluator.callFunction
 //@   assert[C19] first-match-wins: $nmatch == 0 @ Evaluator.evalCaseMatch
 //@   assert[C19] body-only-after-match: $nmatch == 1 @ Evaluator.evalStatement
 //@   ensures[C19] block-body-yields-null: err == nil && istype(expr, *ExprMatch) && $ranBlock ==> result0.Value.Tag == ValueNil && fresh(result0)
@@ -885,13 +889,14 @@ package lang
 //@   ensures ok: parserOK(p) && (err == nil ==> p.previous != nil)
 //@   loop 0 invariant ok: parserOK(p) && p.inLoop == old(p.inLoop) && p.inFunction == old(p.inFunction) && p.previous != nil
 
-//@ func Parser.expression [C01]
+//@ func Parser.expression [C01,C06]
 //@   requires parserOK(p)
 //@   updates nothing
 //@   modifies parserState
 //@   ensures[C01] errkind: err == nil || isSyn(err)
 //@   ensures[C01] node: err == nil ==> result0 != nil
 //@   ensures[C07] context-restored: p.inLoop == old(p.inLoop) && p.inFunction == old(p.inFunction)
+//@   assert[C06] whole-expression-level: arg1 == PrecAssign @ Parser.expressionWithPrec
 //@   ensures ok: parserOK(p) && (err == nil ==> p.previous != nil)
 
 // Precedence of the token under the cursor, as recorded in the rule table.
@@ -922,6 +927,7 @@ package lang
 //@   updates nothing
 //@   modifies nothing
 //@   ensures[C01] node: err == nil && result0 != nil
+//@   ensures[C09] desugars-to-assignment: istype(result0, *ExprBinary) && as(result0, *ExprBinary).Left == left && as(result0, *ExprBinary).OpToken.Tag == Equal && istype(as(result0, *ExprBinary).Right, *ExprBinary) && as(as(result0, *ExprBinary).Right, *ExprBinary).Left == left && as(as(result0, *ExprBinary).Right, *ExprBinary).Right == right && as(as(result0, *ExprBinary).Right, *ExprBinary).OpToken.Tag == (opToken.Tag == PlusEqual ? Plus : (opToken.Tag == MinusEqual ? Minus : (opToken.Tag == MultiplyEqual ? Multiply : Divide)))
 
 //@ func Parser.parseRule [C01,C02,C11]
 //@   requires parserOK(p) && !p.inLoop && !p.inFunction
@@ -990,6 +996,8 @@ package lang
 
 //@ func unary [C01,C06]
 //@   implements parseRule.prefix
+//@   assert[C06] operand-at-unary-level: arg1 == PrecUnary @ Parser.expressionWithPrec
+//@   ensures[C06] node-shape: result1 == nil ==> istype(result0, *ExprUnary) && !as(result0, *ExprUnary).Postfix && as(result0, *ExprUnary).OpToken.Tag == old(arg0.current.Tag)
 
 //@ func computedMember [C01,C06]
 //@   implements parseRule.infix
@@ -1002,12 +1010,22 @@ package lang
 
 //@ func postfix [C01,C06]
 //@   implements parseRule.infix
+//@   ensures[C06] node-shape: result1 == nil ==> istype(result0, *ExprUnary) && as(result0, *ExprUnary).Postfix && as(result0, *ExprUnary).Expr == arg1 && as(result0, *ExprUnary).OpToken.Tag == old(arg0.current.Tag)
 
 //@ func binary [C01,C06]
 //@   implements parseRule.infix
+//@   reveal tableOK
+// I3 of lemma L6: a left-associative operator parses its right operand one level tighter than itself,
+// the (right-associative) compound assignments at their own level.
+//@   assert[C06] right-operand-level: arg1 == (isCompoundTag(p.previous.Tag) ? specPrec(p.previous.Tag) : specPrec(p.previous.Tag) + 1) @ Parser.expressionWithPrec
+//@   ensures[C06] node-shape: result1 == nil && !isCompoundTag(old(arg0.current.Tag)) ==> istype(result0, *ExprBinary) && as(result0, *ExprBinary).Left == arg1 && as(result0, *ExprBinary).OpToken.Tag == old(arg0.current.Tag)
 
 //@ func is [C01,C06]
 //@   implements parseRule.infix
 
 //@ func assign [C01,C06]
 //@   implements parseRule.infix
+//@   reveal tableOK
+//@   assert[C06] assignment-is-right-associative: arg1 == PrecAssign @ Parser.expressionWithPrec
+//@   ensures[C06] node-shape: result1 == nil && old(arg0.current.Tag) == Equal ==> istype(result0, *ExprBinary) && as(result0, *ExprBinary).Left == arg1 && as(result0, *ExprBinary).OpToken.Tag == Equal
+//@   ensures[C11] target-is-assignable: result1 == nil ==> !istype(arg1, *ExprLiteral) && !istype(arg1, *ExprArray) && !istype(arg1, *ExprObject) && (istype(arg1, *ExprBinary) ==> as(arg1, *ExprBinary).OpToken.Tag == Dot || as(arg1, *ExprBinary).OpToken.Tag == LSquare)
